@@ -831,7 +831,7 @@ def main(ctx):
     # interleaved: the per-object map of the second set and the C++ index must not leak between objects
     from mc.worlds import object_world
     MK = {"d4/all": (4, "all"), "d8/dups": (8, "dups"), "d10/polar": (10, "polar"), "d8/all": (8, "all")}
-    MOPS = [("scrambled", 0.015, 2), ("polar", 1.5, 0), ("dups", 0.0, 0), ("seam", 0.5, 1), ("scribble",)]
+    MOPS = [("scrambled", 0.015, 2), ("polar", 1.5, 0), ("dups", 0.0, 0), ("seam", 0.5, 1), ("scribble",), ("bad",)]
 
     class Held(object):
         """a Matcher together with the caller's own coordinate arrays it was built from"""
@@ -850,6 +850,8 @@ def main(ctx):
             h.ra2[:] = 0.0
             h.dec2[:] = 0.0
             return []
+        if op[0] == "bad":
+            return [np.asarray(a) for a in h.M.match(np.array([1.0, 2.0, 3.0]), np.array([1.0, 2.0]), 1.0)]   # must raise
         s1, r, mm = op
         ra1, dec1 = coords(subset(s1, gen))
         return [np.asarray(a) for a in h.M.match(ra1, dec1, r, maxmatch=mm)]
@@ -857,6 +859,8 @@ def main(ctx):
     def m_check(kind, op, res):
         if op[0] == "scribble":
             return None
+        if op[0] == "bad":
+            return "a match with ra and dec of different length was accepted"
         s1, r, mm = op
         p1, p2 = subset(s1, gen), subset(MK[kind][1], gen)
         bad = verify(tuple(res), Truth(p1, p2, np.full(len(p1), r)), mm)
